@@ -247,6 +247,16 @@ def check(case) -> core.Out:
         if ser != codec.ubx_frame(clsid[0:1], clsid[1:2], payload):
             out.viol.append((key + "bytes", f"built {ser.hex()[:80]}, nominal payload {payload.hex()[:64]}"))
             return out
+        if route == "kw" and C.scribble(m):
+            # the nominal instance must be buildable again after its owner edited the
+            # (mutable) array values of the first one
+            try:
+                m2 = pyubx2.UBXMessage(clsid[0:1], clsid[1:2], mode, **nominal_kwargs(t, nodes))
+                if m2.serialize() != ser:
+                    out.viol.append((key + "shared-nominal-value", "a second nominal instance differs after the first "
+                                                                   "one's array attribute was edited by its owner"))
+            except Exception as err:  # noqa
+                out.viol.append((key + f"shared-nominal-value:raises:{type(err).__name__}", repr(err)[:200]))
         for bf in (1,):  # default view; the raw-bitfield view is C02's domain
             try:
                 p = pyubx2.UBXReader.parse(ser, msgmode=mode, parsebitfield=bf)
@@ -359,6 +369,25 @@ def run_shard(spec, ctx, acc):
         for mk in d:
             case = {"kind": "variant-key", "mode": mode, "key": mk}
             core.handle(acc, check(case), case, known)
+    # use the library a little (key/value messages with documented and undocumented
+    # keys), then audit the tables: "as found in the working tree" includes after use
+    from vp.props import c13
+
+    before = c13.table_digests()
+    for kid in (0x20990099, 0x30FF0001, 0x40520001, 0x10340014, 0x5099000A):
+        w = {1: 1, 2: 1, 3: 2, 4: 4, 5: 8}[(kid >> 28) & 7]
+        for mode, cid, hdr in ((0, b"\x06\x8b", b"\x01\x00\x00\x00"), (1, b"\x06\x8a", b"\x00\x01\x00\x00")):
+            try:
+                pyubx2.UBXReader.parse(codec.ubx_frame(cid[0:1], cid[1:2], hdr + kid.to_bytes(4, "little") + bytes(w)),
+                                       msgmode=mode)
+            except Exception:  # noqa
+                pass
+    after = c13.table_digests()
+    for tname in before:
+        if before[tname] != after[tname]:
+            acc.violations.append({"key": f"{PROP}|TABLES|{tname}|changed-by-use",
+                                   "case": {"kind": "cfgkey", "name": "CFG_UART1_BAUDRATE"},
+                                   "detail": f"table {tname} differs after key/value messages were parsed"})
     for name in pyubx2.UBX_CONFIG_DATABASE:
         case = {"kind": "cfgkey", "name": name}
         core.handle(acc, check(case), case, known)
